@@ -332,6 +332,22 @@ func c04GetlineCases(visit func(desc string, e *x.E)) {
 	}
 }
 
+// c04GroupedThenIncr: (operand) ++y and (operand) --y for every kind of primary operand.
+func c04GroupedThenIncr(visit func(desc string, e *x.E)) {
+	prim := map[string]*x.E{
+		"var": x.Var("x"), "index": x.Index("B", x.Num(1)), "index2": x.Index("B", x.Var("x"), x.Num(2)), "field": x.Field(x.Num(1)), "fieldvar": x.Field(x.Var("x")),
+		"num": x.Num(3), "str": x.Str("s"), "call": x.Call("length", x.Var("x")), "user": x.User("f", x.Var("x")), "group": x.Group(x.Index("B", x.Num(1))),
+	}
+	for pn, p := range prim {
+		for _, op := range []string{"++", "--"} {
+			for tn, tgt := range map[string]*x.E{"var": x.Var("y"), "index": x.Index("B", x.Var("z")), "field": x.Field(x.Num(2))} {
+				visit("grouped-"+pn+op+"pre-"+tn, x.Bin("cat", x.Group(p), x.Incr(op, true, tgt)))
+				visit("grouped-"+pn+op+"pre-"+tn+"-then", x.Bin("cat", x.Bin("cat", x.Group(p), x.Incr(op, true, tgt)), x.Var("w")))
+			}
+		}
+	}
+}
+
 func init() {
 	n := func(t core.Tier, q, th int) int {
 		if t == core.Thorough {
@@ -377,6 +393,17 @@ func init() {
 					if c.Mine(idx) {
 						c04Check(c, desc, e, cxn)
 						c.Cover("getline_forms", desc+"|"+cxn)
+					}
+					idx++
+				}
+			})
+			// an operand written in parentheses is not an lvalue: a following ++ / -- belongs to the next
+			// operand of the concatenation (grouping yields a value, not a variable)
+			c04GroupedThenIncr(func(desc string, e *x.E) {
+				for _, cxn := range []string{"stmt", "if", "pattern", "subscript", "arg", "print"} {
+					if c.Mine(idx) {
+						c04Check(c, desc, e, cxn)
+						c.Cover("grouped_then_incr", desc+"|"+cxn)
 					}
 					idx++
 				}
